@@ -1083,7 +1083,13 @@ def remap_by_types(
         def visit_Subscript(self, node: ast.Subscript) -> Any:
             t_node = self.generic_visit(node)
             assert isinstance(t_node, ast.Subscript)
-            if isinstance(t_node.value, ast.Tuple):
+            if isinstance(t_node.value, ast.Tuple) and any(
+                isinstance(e, ast.Starred) for e in t_node.value.elts
+            ):
+                # `(a, *rest)[1]`: which element that is is only known when it runs
+                self._found_types[node] = Any
+                self._found_types[t_node] = Any
+            elif isinstance(t_node.value, ast.Tuple):
                 _slice = t_node.slice
                 if (
                     isinstance(_slice, ast.UnaryOp)
